@@ -219,6 +219,10 @@ class C16(Prop):
                         escaped = "%s: %s" % (type(error).__name__, error)
                         break
                     out.append(ev)
+                    if len(calls) > limit + 3:
+                        escaped = ("%d connection attempts were made although only %d back-offs were yielded: an attempt "
+                                   "ended without a BackOff (and without consulting the exit event)" % (len(calls), backoffs))
+                        break
                     if ev.name == "back_off":
                         backoffs += 1
                         if backoffs >= limit and case["exit_at"] is None:
@@ -232,7 +236,8 @@ class C16(Prop):
         finally:
             simnet.CURRENT = None
         if escaped:
-            return failed("escaped_exception", escaped, labels, nontrivial)
+            sig = "attempt_without_backoff" if "without a BackOff" in escaped else "escaped_exception"
+            return failed(sig, escaped, labels, nontrivial)
         # ---- split into attempts
         attempts, cur, delays = [], [], []
         for ev in out:
